@@ -135,7 +135,7 @@ func init() {
 		Batches: [2]int{1, 10}, PerBatch: [2]int{96, 64}, Cases: [2]int{120, 400},
 		Rule:        "cases = (schema from the codec profile with every RPC on an explicit route) x RPC x (request value, response value). The generated Go server is driven with raw HTTP: the request body is the reference model's encoding of the request value, the handler returns the response value. Oracle: handler-visible request == value (accepted form) and the response body tree == model encoding (sent form), compared field by field incl. un-annotated fields. Non-trivial = request or response type carries an annotation at any depth, or the value is presence-sensitive; distinct by (RPC, request value, response value). Contexts are counted in classes request:ctx:* / response:ctx:*.",
 		Assumptions: commonAssumptions})
-	registerRuntime(&runtimeCheck{ID: "C02", Profile: schema.ProfileServerTransport, Inner: []string{"c02"}, Prefix: "u", Variant: "server",
+	registerRuntime(&runtimeCheck{ID: "C02", Profile: schema.ProfileServerTransport, Inner: []string{"c02", "c02ts"}, Prefix: "u", Variant: "server", Prepare: prepareTS,
 		Batches: [2]int{1, 10}, PerBatch: [2]int{64, 64}, Cases: [2]int{200, 600},
 		Rule:        "cases = (schema with path variables and query-annotated fields of every URL kind on every verb, incl. repeated query fields) x RPC x raw HTTP request: URL values per kind drawn from {clearly valid canonical forms, clearly invalid (non-numeric, fractional, out of range, empty), grey (only judged for no-5xx)}, canonical or fully percent-encoded segments, missing/present query parameters x body in {absent, zero-length, {}, object/wire message carrying only the non-URL fields} x content type {JSON, binary}. Oracle = reference binder B: handler-visible request == body fields + URL values, or 400 whose violations name an offending field and no dispatch. Non-trivial = body verb with a body carrying other fields, or >= 1 offending URL value / missing required parameter; distinct by (request line, body).",
 		Assumptions: append([]string{"grey URL spellings (+5, 0x10, T, inf, leading spaces) are generated but only checked for no panic / no 5xx", "repeated occurrences of a singular query parameter are not generated (first/last-wins is undocumented)"}, commonAssumptions...)})
